@@ -125,6 +125,49 @@ def install(E, inline_types=(), target=None, adversarial=False):
         return ok(args[0])
     E.extra_intrinsics[r"(^|::)write_bounded_bytes::<.*>$"] = write_bounded
 
+    # ------------------------------------------------ CBOR nested in a byte string (cbor!(x) written with write_bytes, read back through a Cursor)
+    def nested_table(E_):
+        return E_.__dict__.setdefault("nested_cbor", {})
+
+    def new_vec(E_, c, args):
+        return VSer()
+    E.extra_intrinsics[r"cbor_event::se::Serializer::<std::vec::Vec<u8>>::new_vec$"] = new_vec
+
+    def finalize(E_, c, args):
+        s_ = deref(E_, args[0])
+        if not isinstance(s_, VSer):
+            return NotImplemented
+        o = VOpaque("cbor_bytes", [], z3.FreshConst(E_.U, "cbor_bytes"))
+        nested_table(E_)[str(o.t)] = list(s_.tokens)
+        return o
+    E.extra_intrinsics[r"cbor_event::se::Serializer::<std::vec::Vec<u8>>::finalize$"] = finalize
+
+    def generic_serialize(E_, c, args):
+        s_ = deref(E_, args[0])
+        if not isinstance(s_, VSer):
+            return NotImplemented
+        v = deref(E_, args[1])
+        if isinstance(v, VInt):
+            s_.tokens.append(("uint", v.t))
+            return ok(args[0])
+        return NotImplemented
+    E.extra_intrinsics[r"cbor_event::se::Serializer::<.*>::serialize::<&?(u8|u16|u32|u64)>$"] = generic_serialize
+
+    def cursor_new(E_, c, args):
+        return VStruct("Cursor", [args[0]])
+    E.extra_intrinsics[r"^std::io::Cursor::<std::vec::Vec<u8>>::new$"] = cursor_new
+
+    def de_from_cursor(E_, c, args):
+        cur = deref(E_, args[0])
+        if not (isinstance(cur, VStruct) and cur.name == "Cursor"):
+            return NotImplemented
+        b = deref(E_, cur.fields[0])
+        toks = nested_table(E_).get(str(E_.as_u(b)))
+        if toks is None:
+            raise Unsupported("nested CBOR of unknown bytes")
+        return VDe(list(toks))
+    E.extra_intrinsics[r"^<cbor_event::de::Deserializer<std::io::Cursor<std::vec::Vec<u8>>> as From<std::io::Cursor<std::vec::Vec<u8>>>>::from$"] = de_from_cursor
+
     def sz_canonical(E_, c, args):
         v = args[0].t
         i = E_.choose([v <= 23, z3.And(v > 23, v < 0x100), z3.And(v >= 0x100, v < 0x10000), z3.And(v >= 0x10000, v < (1 << 32)), v >= (1 << 32)], "Sz::canonical")
@@ -220,6 +263,15 @@ def install(E, inline_types=(), target=None, adversarial=False):
         tok = peek(d)
         if meth == "as_mut_ref":
             return args[0]          # the reader under the token model is the token cursor itself
+        mg = re.search(r"::deserialize::<(u8|u16|u32|u64)>$", c)
+        if mg:
+            if tok is not None and tok[0] == "uint":
+                d.pos += 1
+                rng_ = (1 << {"u8": 8, "u16": 16, "u32": 32, "u64": 64}[mg.group(1)])
+                if E_.choose([tok[1] < rng_, tok[1] >= rng_], "integer fits") == 1:
+                    return err("integer out of range")
+                return ok(VInt(tok[1], mg.group(1)))
+            return err("expected unsigned integer")
         if meth == "cbor_type":
             return ok(VEnum("Type", cbor_type_of(tok), [])) if tok is not None else err("eof")
         if tok is None:
@@ -258,6 +310,7 @@ def install(E, inline_types=(), target=None, adversarial=False):
             return ok(VBool(t[2])) if t and t[1] == "Bool" else err("expected bool")
         raise Unsupported("deserializer method " + meth)
     E.extra_intrinsics[r"cbor_event::de::Deserializer::<.*>::\w+$"] = de_call
+    E.extra_intrinsics[r"cbor_event::de::Deserializer::<.*>::deserialize::<(u8|u16|u32|u64)>$"] = de_call
 
     def blen(E_, u):
         n = z3.Function("container_len", E_.U, z3.IntSort())(u)
